@@ -39,6 +39,11 @@ pub fn ctl_match_swallow<W: Write>(w: &mut W) -> io::Result<()> {
 }
 
 // R07.2: plain `write` on a generic writer (may be short)
+/// a buffering adapter around the sink that is never flushed: its Drop writes the pending bytes and discards the error
+pub fn ctl_bufwriter_drop<W: Write>(w: &mut W) -> io::Result<()> {
+    let mut b = io::BufWriter::with_capacity(64, w);
+    b.write_all(b"abc")
+}
 pub fn ctl_plain_write<W: Write>(w: &mut W) -> io::Result<()> {
     w.write(b"abc")?;
     Ok(())
